@@ -88,10 +88,12 @@ SubCall(s, q, p, i) == [op |-> "sub", a |-> <<s, q, p, i>>]
 TrainCall(w, p1, i1, p2, i2) == [op |-> "train", a |-> <<w, p1, i1, p2, i2>>]
 SegCall(h) == [op |-> "segment", a |-> <<h>>]
 CompCall(h) == [op |-> "compose", a |-> <<h>>]
+SegTailCall(h, t) == [op |-> "segtail", a |-> <<h, t>>]      \* a segment given with its explicit tail
 Calls == {SubCall(sq[1], sq[2], pi[1], pi[2]) : sq \in ApplyPorts, pi \in PubPorts}
          \cup {TrainCall(w, a[1], a[2], b[1], b[2]) : w \in {n \in Nodes : IsW(n)}, a \in PubPorts, b \in PubPorts}
          \cup {SegCall(h) : h \in {n \in Nodes : Cast[n].zin <= 1}}
          \cup {CompCall(h) : h \in {n \in Nodes : Cast[n].zin <= 1}}
+         \cup {SegTailCall(h, t) : h \in {n \in Nodes : Cast[n].zin <= 1}, t \in {n \in Nodes : IsW(n) /\ Cast[n].zout <= 1}}   \* (a placeholder given as tail stands for the worker it is equal to: not generated)
 Effect(c) == CASE c.op = "sub" -> {<<c.a[3], c.a[4], c.a[1], c.a[2]>>}
                [] c.op = "train" -> {<<c.a[2], c.a[3], c.a[1], TrainPort>>, <<c.a[4], c.a[5], c.a[1], LabelPort>>}
                [] OTHER -> {}
@@ -104,6 +106,8 @@ Outcome(D, c) ==
                            ELSE IF ~TopologyOK(D \cup Effect(c)) \/ Effect(c) \cap D # {} THEN "topo"
                            ELSE IF ~Cast[c.a[1]].sf THEN "any" ELSE "ok"
       [] c.op = "segment" -> IF CycleFrom(D, c.a[1]) THEN "topo" ELSE "any"
+      \* tracing a segment rejects cycles whether the tail is found by scanning or given by the caller
+      [] c.op = "segtail" -> IF CycleFrom(D, c.a[1]) THEN "topo" ELSE "any"
       [] c.op = "compose" -> IF CycleFrom(D, c.a[1]) \/ (IsF(c.a[1]) /\ \E m \in Succ(D, c.a[1]) : ~Trained(D, m)) THEN "topo" ELSE "any"
       [] OTHER -> "any"
 Mutates(c) == c.op \in {"sub", "train"}
